@@ -108,9 +108,11 @@ pub fn noisy_layout(r: &mut Rng, steps: &[StepSpec], comments: bool) -> (String,
             let body = *r.pick(&["not a step = 1", "not a step = 1 # nor this: x=9 | addone", "## y=2 # z=3", "#"]);
             out += &format!(" # comment {} | {}{}", i, body, r.pick(&["\n", "\n", "\r\n", "\r"]));
         }
-        // empty steps are insignificant
-        if r.chance(1, 10) {
-            out += &format!("{}|{}", ws0(r), ws0(r));
+        // empty steps are insignificant, one or several in a row
+        if r.chance(1, 8) {
+            for _ in 0..(1 + r.below(3)) {
+                out += &format!("{}|{}", ws0(r), ws0(r));
+            }
         }
     }
     if comments && r.chance(1, 4) {
